@@ -123,6 +123,7 @@ type fx struct {
 	curCallee   *ssa.CallCommon
 	keepAllRegs []region
 	keepAllInit  bool
+	sentinelRefs     map[string]bool // object ids of imported sentinel error variables (io.EOF, ErrXxx)
 	assertSeen       map[int]bool // assert clauses whose call site / return exists in the function
 	ensuresEvaluated map[int]bool // ensures clauses evaluated at some return (a clause over locals in scope at no return is vacuous)
 	pcOverride   string // guard used by assume instead of curPC (lazily resolved frames)
@@ -509,6 +510,13 @@ func (x *fx) valOf(v ssa.Value) *Val {
 		return r
 	case *ssa.Global:
 		id := x.g.globalID(c)
+		if c.Pkg != nil && x.fn != nil && c.Pkg != x.fn.Pkg && (strings.HasPrefix(c.Name(), "Err") || c.Name() == "EOF") {
+			// a sentinel error variable of another package: nothing reassigns it
+			if x.sentinelRefs == nil {
+				x.sentinelRefs = map[string]bool{}
+			}
+			x.sentinelRefs[fmt.Sprint(id)] = true
+		}
 		r := &Val{T: c.Type(), S: fmt.Sprintf("(mk-ptr %d %s)", id, x.idxConst(0))}
 		x.vals[v] = r
 		return r
